@@ -253,8 +253,11 @@ impl Property for C10 {
     fn id(&self) -> &'static str {
         "C10"
     }
+    fn regimes(&self) -> &'static str {
+        crate::gen::REGIMES_CATALOGUE
+    }
     fn rule(&self) -> String {
-        "proptest: histories of up to 12 operations over {set_params(tame | extreme | repeated alpha), set_params(wrong length), set_params with an injected model failure (hand-written models; keep-old and store-then-fail styles), residuals(), jacobian(), linear_coefficients(), model evaluation} on all problem flavours; each history is executed twice, with every fresh heap allocation of the executing threads (including the rayon workers of parallel problems) pre-filled with 0xFF and with 0x5A by the harness' global allocator. Oracle: after every successful update parameters, coefficients, residuals and Jacobian are bitwise equal to those of a freshly built problem whose model starts at that alpha; repeated queries are bitwise equal; the two poison runs are bitwise equal and no element equals the poison value. Non-trivial: >= 3 operations including a repeated alpha or a failing update".into()
+        "proptest: histories of up to 12 operations over {set_params(tame | extreme | repeated alpha), set_params(wrong length), set_params with an injected model failure (hand-written models; keep-old and store-then-fail styles), residuals(), jacobian(), linear_coefficients(), model evaluation} on all problem flavours; each history is executed twice, with every fresh heap allocation of the executing threads (including the rayon workers of parallel problems) pre-filled with 0xFF and with 0x5A by the harness' global allocator. Oracle: after every successful update parameters, coefficients, residuals and Jacobian are bitwise equal to those of a freshly built problem whose model starts at that alpha; repeated queries are bitwise equal; the two poison runs are bitwise equal and no element equals the poison value. Extreme values include +0.0/-0.0 (also as pairs of updates that differ only in the sign of a zero) and values that put the largest basis value just below the overflow threshold of the scalar type. Non-trivial: >= 3 operations including a repeated alpha or a failing update".into()
     }
     fn assumptions(&self) -> Vec<String> {
         vec!["heap contents are sampled by two fill patterns, not quantified over".into(), "bitwise comparison is legitimate because history and fresh problem execute the same deterministic computation".into()]
